@@ -482,8 +482,12 @@ def write_file(path, cols, row_groups):
                 dne = None
                 if leaf["which"] != "flat" and leaf["elem_opt"]:
                     dne = max_def - 1
+                # dictionary FALLBACK: from page `dict_fallback` on the chunk continues with PLAIN pages (what parquet-mr does when
+                # the dictionary outgrows its size limit); the dictionary page stays, encodings lists both
+                fb = lay.get("dict_fallback") if dictionary is not None else None
                 for k, (r, d, v, nr) in enumerate(pages):
-                    pg, us = data_page(r, d, v, max_rep, max_def, leaf["ptype"], lay["version"], dictionary,
+                    pg, us = data_page(r, d, v, max_rep, max_def, leaf["ptype"], lay["version"],
+                                       (None if (fb is not None and k >= fb) else dictionary),
                                        lay.get("level_style", "mixed"), nr, codec, bool(lay.get("legacy_dict")),
                                        stats=(pstats[k] if k < len(pstats) else None),
                                        is_compressed=(flags[k] if k < len(flags) else None), d_nullel=dne)
